@@ -69,8 +69,8 @@ def _keys_read(sx: SCtx):
             for s_ in S.subterms(tm):
                 if s_[:1] == ("sub",) and s_[1] == LOG:
                     k = s_[2]
-                    if k[:1] == ("const",):
-                        out.add(k[1].strip("'\""))
+                    if all(x[:1] == ("const",) for x in S.alts(k)):
+                        out |= {x[1].strip("'\"") for x in S.alts(k)}
                     elif k[:1] == ("elem",) and k[1][:1] in (("tuple",), ("list",)):
                         out |= {x[1].strip("'\"") for x in k[1][1] if x[:1] == ("const",)}
                     elif k[:1] == ("elem",) and k[1] == LOG:
